@@ -2,6 +2,7 @@ import ExponaxModel.Proofs.Contour
 import ExponaxModel.Generated.Misc
 import ExponaxModel.Model.EtdrkSpec
 import ExponaxModel.Proofs.ReadOffForcing
+import ExponaxModel.Proofs.NonlinFunsEq
 /-
 C12 — forcing terms inject exactly the documented field.
 `Gen.Misc.forced_step*` are regenerated from `exponax/_forced_stepper.py`; `Gen.Etdrk.*` from `etdrk/`.
@@ -76,5 +77,15 @@ theorem C12_velocity_forcing_field (c : Nonlin.Cfg ℂ) (γ : ℝ) (hD : c.D = 3
     (Nonlin.projected3d c (some (m, (γ : ℂ))) uh).getD 1 #[] = ExactLinear.vzero (Layout.numModes 3 c.N) ∧
     (Nonlin.projected3d c (some (m, (γ : ℂ))) uh).getD 2 #[] = ExactLinear.vzero (Layout.numModes 3 c.N) :=
   ReadOff.projected3d_injection_is_forcing_array c γ hD m hm0 hm uh h0
+
+/-! ### the forced nonlinear functions REGENERATED from `_vorticity_convection.py` / `_projected_convection.py` (their
+`__init__` builds the injection array) are the model terms of the theorems above -/
+theorem C12_generated_forced_terms (c : Nonlin.Cfg ℂ) (s : ℝ) (hs : c.s = (s : ℂ)) (scale gam : ℂ) (m : ℕ)
+    (uh : Nonlin.MC ℂ) :
+    Gen.NonlinFuns.VorticityConvection2dKolmogorov_call c scale m gam uh = Nonlin.vorticity2d c scale (some (m, gam)) uh ∧
+    (c.D = 3 → 0 < m →
+      Gen.NonlinFuns.ProjectedConvection3dKolmogorov_call c m gam uh = Nonlin.projected3d c (some (m, gam)) uh) :=
+  ⟨NonlinFunsEq.VorticityConvection2dKolmogorov_call_eq c s hs scale m gam uh,
+   fun hD hm => NonlinFunsEq.ProjectedConvection3dKolmogorov_call_eq c hD m hm gam uh⟩
 
 end Exponax
